@@ -38,6 +38,8 @@ LIB: dict[str, dict] = {
     "TFailKI": _op("failki", [], beh=["fail", "KeyboardInterrupt"]),
     "TProbe": dict(kind=["probe"], params=[], inT="TData", outT="TData", declared=[], beh=["term", "probe"]),
     "TProbeP": dict(kind=["probe"], params=[("a", None)], inT="TData", outT="TData", declared=[], beh=["term", "probep"]),
+    # static description only (C02/C07): the echo behaviour is not part of the execution model
+    "TProbeEcho": dict(kind=["probe"], params=[("val", None)], inT="TData", outT="TData", declared=[], beh=["term", "echo"]),
     "TFailProbe": dict(kind=["probe"], params=[], inT="TData", outT="TData", declared=[], beh=["fail", "VerifProcError"]),
     "TSink": dict(kind=["dataSink"], params=[("path", None)], inT="TData", outT="TData", declared=[], beh=["term", "sink"]),
     "TPayloadSink": dict(kind=["payloadSink"], params=[("path", None)], inT="TData", outT="TData", declared=[], beh=["term", "psink"]),
